@@ -69,6 +69,8 @@ pub struct MrpKnobs {
     pub slow_handlers: bool,
     pub cancel_handlers: bool,
     pub settle: bool,
+    /// Probability (permille) of a step being sent without the reliability flag
+    pub unreliable_permille: u32,
 }
 
 impl MrpKnobs {
@@ -84,6 +86,7 @@ impl MrpKnobs {
             slow_handlers: false,
             cancel_handlers: false,
             settle: false,
+            unreliable_permille: 40,
         }
     }
     pub fn full() -> Self {
@@ -98,6 +101,7 @@ impl MrpKnobs {
             slow_handlers: false,
             cancel_handlers: false,
             settle: false,
+            unreliable_permille: 40,
         }
     }
 }
@@ -158,7 +162,7 @@ pub fn gen_cfg(seed: u64, knobs: &MrpKnobs) -> MrpCfg {
                     b |= Step::BY_RESPONDER;
                 }
             }
-            if knobs.allow_unreliable && tape::biased(2, 40) == 1 {
+            if knobs.allow_unreliable && tape::biased(2, knobs.unreliable_permille) == 1 {
                 b |= Step::UNRELIABLE;
             }
             if tape::biased(2, 400) == 1 {
